@@ -15,12 +15,24 @@ struct SockClientThread : public Thread
 	SockClientThread(SocketServer* svr, const Socket& cli):
 		_server(svr), _client(cli)
 	{
+#ifdef ASL_VERIF
+		asl_verif_point(22, this);
+#endif
 		start();
 	}
 	void run()
 	{
+#ifdef ASL_VERIF
+		asl_verif_point(25, this);
+#endif
 		_server->serve(_client);
+#ifdef ASL_VERIF
+		asl_verif_point(26, this);
+#endif
 		_client.close();
+#ifdef ASL_VERIF
+		asl_verif_point(27, this);
+#endif
 		--_server->_numClients;
 	}
 	void ended()
@@ -54,6 +66,9 @@ SocketServer::SocketServer()
 
 SocketServer::~SocketServer()
 {
+#ifdef ASL_VERIF
+	asl_verif_point(30, this);
+#endif
 	if(_thread) {
 		_thread->kill();
 		delete _thread;
@@ -116,10 +131,22 @@ void SocketServer::startLoop()
 			for (int i = 0; i < n; i++)
 			{
 				Socket client = _sockets.activeAt(i).accept();
+#ifdef ASL_VERIF
+				asl_verif_point(20, this);
+#endif
 				++_numClients;
 				if (_sequential) {
+#ifdef ASL_VERIF
+					asl_verif_point(25, 0);
+#endif
 					serve(client);
+#ifdef ASL_VERIF
+					asl_verif_point(26, 0);
+#endif
 					client.close();
+#ifdef ASL_VERIF
+					asl_verif_point(27, 0);
+#endif
 					--_numClients;
 				}
 				else
@@ -128,9 +155,16 @@ void SocketServer::startLoop()
 		}
 		if(_requestStop || n < 0)
 		{
+#ifdef ASL_VERIF
+			asl_verif_point(23, this);
+#endif
 			_running = false;
 			break;
 		}
+#ifdef ASL_VERIF
+		else
+			asl_verif_point(24, this);
+#endif
 		
 	}
 	while(true);
@@ -151,12 +185,18 @@ void SocketServer::start(bool nonblocking)
 void SocketServer::stop(bool sync)
 {
 	_requestStop = true;
+#ifdef ASL_VERIF
+	asl_verif_point(28, this);
+#endif
 	
 	if (sync)
 	{
 		do {
 			sleep(0.1);
 		} while (_running || _numClients > 0);
+#ifdef ASL_VERIF
+		asl_verif_point(29, this);
+#endif
 	}
 }
 
